@@ -87,6 +87,11 @@ fn new_inst(is_key: bool, logical: u32, parent: u32) -> u32 {
 fn on_drop(is_key: bool, inst: u32, logical: u32, canary: u64, addr: usize) {
     let clock = sched::now();
     let in_run = crate::alloc::is_active();
+    if let Ok(w) = std::env::var("VERIF_BT") {
+        if !is_key && w.parse::<u32>().ok() == Some(logical) {
+            eprintln!("drop of value {} at clock {}:\n{}", logical, clock, std::backtrace::Backtrace::force_capture());
+        }
+    }
     let mut l = LEDGER.lock().unwrap();
     if canary != LIVE {
         let what = if canary == DEAD {
